@@ -23,7 +23,7 @@ CFG = dict(
          "aggregate fields (bare / nested column, count(*), erroring and NULL-producing expression evaluators) over several batches "
          "(results / reset in varying order, NULL and missing cells); (iii) a SQL query with CountingWindow(N) (optionally GROUP BY g), "
          "bare, nested-path and arithmetic arguments (a*b+1, a*b, a-b, a*2), a sync sink and a sentinel batch as barrier. "
-         "distinct = distinct (cfg, op list); floats compared bit-exactly",
+         "distinct = distinct (cfg, op list); floats compared bit-exactly Added late: sql cases over bare columns run half the time through GLOBAL WINDOW TRIGGER WHEN COUNT(*) >= n (`gwin`, numeric / NULL / missing values only) and one in six ungrouped cases registers its sink late on a one-slot result channel (`latesink`). Every fifth case runs under WithHighPerformance (`preset high`), for C05/C06/C12/C13/C14/C16/C20 another fifth under WithLowLatency (`preset low`); every seventh case follows a noise prelude (failing statements, malformed rows, panicking sink / function in other instances).",
     assumptions=["global-window variant of the sql cases (cfg gwin): values restricted to the property's own domain (numbers, whole ones within +-2^53, NULL, missing); the running aggregators hold every number as float64, so a whole number is compared as the float64 of the same value",
                  "nth_value / percentile in a GLOBAL WINDOW query are the recorded finding class global-window-parameterised-aggregate (left out of the result row); cases of that class are generated, compared with the model and excused by class only",
                  
